@@ -18,11 +18,14 @@
 (*                    the target's own (non-interface) property            *)
 (*   CacheNeedsForce  an existing cache entry changes only with FORCE      *)
 (*   DelayedIsMoved   the delayed-call protocol equals moving the delayed  *)
-(*                    commands to the next flush                           *)
+(*                    commands to the next flush (checked from the plain   *)
+(*                    start and, Preloaded, from the state preload.cmake   *)
+(*                    leaves, where up to MaxLen commands pile up)         *)
 (* The alphabet is exported for the replay through the real parser.        *)
 (***************************************************************************)
 EXTENDS CMakeFold, TLC, Json, IOUtils, SequencesExt
-CONSTANTS MaxLen
+CONSTANTS MaxLen,
+          Preloaded      \* TRUE: the state after Meson's preload.cmake announced the delayed commands
 
 A(x) == <<x>>
 K(x) == <<x>>
@@ -91,7 +94,10 @@ Alphabet == <<
 
 Prelude == << C("add_library", <<A("n1"), K("SHARED"), A("n1.c")>>),
               C("add_library", <<A("i1"), K("INTERFACE"), K("IMPORTED")>>) >>
-Start == Fold(InitState, Prelude)
+\* what preload.cmake does before the project's own commands are traced
+PreloadHeader == << C("set", <<A("MESON_PS_DELAYED_CALLS"), <<"add_custom_target", "set_property", "target_link_libraries">>>>),
+                    C("meson_ps_reload_vars", <<>>) >>
+Start == Fold(InitState, IF Preloaded THEN Prelude \o PreloadHeader ELSE Prelude)
 
 VARIABLES st, hist
 vars == <<st, hist>>
@@ -119,7 +125,7 @@ UsesProtocol(h) == \E i \in 1..Len(h) : IsProtocol(h[i])
 TargetSlice(h, t) == SelectSeq(h, LAMBDA c : t \in Subjects(c))
 VarSlice(h, v) == SelectSeq(h, LAMBDA c : v \in VarsOf(c))
 SliceLaw ==
-    ~UsesProtocol(hist) =>
+    (~Preloaded /\ ~UsesProtocol(hist)) =>
         /\ \A t \in DOMAIN st.tg : t \in DOMAIN Fold(Start, TargetSlice(hist, t)).tg
                                    /\ st.tg[t] = Fold(Start, TargetSlice(hist, t)).tg[t]
         /\ \A v \in VarNames : Lookup(st, v) = Lookup(Fold(Start, VarSlice(hist, v)), v)
@@ -131,7 +137,7 @@ Independent(c, d) == /\ ~IsProtocol(c) /\ ~IsProtocol(d)
                      /\ VarsOf(c) \cap VarsOf(d) = {}
                      \* a command that refers to a target by name needs the target to exist (ALIAS n1, items are free text)
 Commute ==
-    (Len(hist) >= 2 /\ ~UsesProtocol(hist) /\ Independent(hist[Len(hist) - 1], hist[Len(hist)])) =>
+    (Len(hist) >= 2 /\ ~Preloaded /\ ~UsesProtocol(hist) /\ Independent(hist[Len(hist) - 1], hist[Len(hist)])) =>
         LET n == Len(hist) IN Fold(Start, SubSeq(hist, 1, n - 2) \o <<hist[n], hist[n - 1]>>) = st
 
 \* ---- action properties --------------------------------------------------------------------------
@@ -156,7 +162,7 @@ RECURSIVE IfaceOnly(_, _, _, _)
 IfaceOnly(cmd, args, i, scope) ==
     IF i > Len(args) THEN {}
     ELSE IF IsWord(args[i], ScopeWords(cmd)) THEN IfaceOnly(cmd, args, i + 1, args[i][1])
-    ELSE (IF ToIface(scope) /\ ~ToOwn(scope) THEN RangeOf(args[i]) ELSE {}) \cup IfaceOnly(cmd, args, i + 1, scope)
+    ELSE (IF scope \in {"INTERFACE", "LINK_INTERFACE_LIBRARIES"} THEN RangeOf(args[i]) ELSE {}) \cup IfaceOnly(cmd, args, i + 1, scope)
 InterfaceStaysOut ==
     [][ LastCmd.cmd \in TargetCommands =>
           LET t == LastCmd.args[1][1]
@@ -179,10 +185,11 @@ MovedHist(h, S, delayed, waiting) ==
          ELSE <<c>> \o MovedHist(Tail(h), Exec(S, c), delayed, waiting)
 NoDelayFold(h) == ExecAll(Start, h)
 DelayedIsMoved ==
-    LET plain == NoDelayFold(MovedHist(hist, Start, <<>>, <<>>))
+    LET plain == NoDelayFold(MovedHist(hist, Start, Start.delayed, <<>>))
     IN /\ plain.vars = st.vars /\ plain.cache = st.cache /\ plain.tg = st.tg /\ plain.errs = st.errs
 
 \* ---- export ---------------------------------------------------------------------------------------------
 EmitAlphabet == /\ TLCGet("stats").diameter >= 0
-                /\ JsonSerialize("fold_alphabet.json", [alphabet |-> Alphabet, prelude |-> Prelude, vars |-> SetToSeq(VarNames)])
+                /\ JsonSerialize("fold_alphabet.json", [alphabet |-> Alphabet, prelude |-> Prelude, header |-> PreloadHeader,
+                                                        vars |-> SetToSeq(VarNames)])
 =============================================================================
